@@ -74,6 +74,17 @@ def sample_states(name, consts, wd, run, keep):
     return [(k, confirmed[k], calls_at.get(k, [])) for k in chosen]
 
 
+def mutate_after_warm(w, calls):
+    """make the first offered link call that really changes the end lists (deterministic choice)"""
+    for c in calls:
+        if c["op"] in ("setv", "ladd", "lunl", "vadd", "vrem", "unlink", "new", "link"):
+            before = w.project()["ends"]
+            w.apply(c)
+            if w.project()["ends"] != before:
+                return c
+    return None
+
+
 def build(consts, path, caching):
     from edgegraph.structure import Vertex
     Vertex.NEIGHBOR_CACHING = caching
@@ -103,7 +114,7 @@ def c10(tier, seed, wd, replay=None):
     cfgs = [ST.cfg("links-2x2", Kinds={"D", "U", "T"}), ST.cfg("unis-1v2u", NV=1, NU=2, NL=0, NLaw=2, Fams={"uni", "new"}, InitBV=1, InitBU=1, MaxArg=2),
             ST.cfg("mixed-2v1u1l", NV=2, NU=1, NL=1, NLaw=2, Kinds={"D", "U"}, Fams={"link", "expl", "uni", "laws"}, InitBV=2, InitBU=1, MaxArg=1)]
     protos = [0, 2, 4, 5] if tier == "quick" else [0, 1, 2, 3, 4, 5]
-    tree_recs, iso_recs, cont_recs, fresh_jobs = [], [], [], []
+    tree_recs, iso_recs, cont_recs, fresh_jobs, copy_probes = [], [], [], [], []
     meta = {}
     for name, consts in cfgs:
         for si, (key, path, calls) in enumerate(sample_states(name, consts, wd, run, nstates)):
@@ -112,6 +123,9 @@ def c10(tier, seed, wd, replay=None):
                 PX.decorate(w, variant)
                 if caching:
                     P.run(w, w.project(), {"kind": "C05", "full": False, "nofilter": True})       # warm memos get pickled too
+                    # then change the graph WITHOUT asking again: whatever the invalidation leaves behind in the
+                    # per-vertex memo is pickled along and must not confuse the copy
+                    mutate_after_warm(w, calls)
                 orig = PX.projection_with_decor(w)
                 for proto in protos:
                     if (si + proto) % 2 == 0:
@@ -129,6 +143,12 @@ def c10(tier, seed, wd, replay=None):
                         meta[("iso", rid)] = {"config": name, "consts": consts, "path": path, "variant": variant, "caching": caching,
                                               "protocol": proto, "loader": loader, "fresh": False}
                         run.count_class(f"roundtrip:same-process,proto{proto},{loader},cache{int(caching)}")
+                        if w2 is not None and caching:
+                            # queries on the copy, flag on: judged against the operators on the copy's own projection
+                            S2 = w2.project()
+                            copy_probes.append({"id": len(copy_probes) + 1, "S": S2, "consts": consts,
+                                                "probes": P.run(w2, S2, {"kind": "C05", "full": False, "nofilter": True}),
+                                                "meta": meta[("iso", rid)]})
                         if w2 is not None and (si + proto) % 3 == 0:
                             for c in calls[:: max(1, len(calls) // 6)][:6]:
                                 w3 = PX.world_from_pool(__import__("pickle").loads(__import__("pickle").dumps(PX.pool_of(w2))))
@@ -154,6 +174,16 @@ def c10(tier, seed, wd, replay=None):
                           f"round trip (protocol {m['protocol']}, {m['loader']}) violates {v['fail']}",
                           dict(kind="pickle-roundtrip", **{k: x for k, x in m.items() if k != "consts"},
                                consts={k: (sorted(x) if isinstance(x, set) else x) for k, x in consts.items()}))
+        qpart = [r for r in copy_probes if r["consts"] is consts]
+        for i, r in enumerate(qpart):
+            r["id"] = i + 1
+        for v in Q.judge("C05", consts, qpart, wd, f"copyq-{name}"):
+            m = qpart[v["id"] - 1]["meta"]
+            run.violation(f"roundtrip:same-process,{m['loader']},cache1|QueriesOnCopy",
+                          f"cached queries on the un-pickled copy (protocol {m['protocol']}, {m['loader']}) deviate: {json.dumps(v)[:200]}",
+                          dict(kind="pickle-roundtrip", **{k: x for k, x in m.items() if k != "consts"},
+                               consts={k: (sorted(x) if isinstance(x, set) else x) for k, x in consts.items()}))
+        run.count_class(f"queries-on-copy:{name}", len(qpart))
         cpart = [r for r in cont_recs if r["consts"] is consts]
         for i, r in enumerate(cpart):
             r["id"] = i + 1
@@ -172,6 +202,7 @@ def c10(tier, seed, wd, replay=None):
         PX.decorate(w, variant)
         if caching:
             P.run(w, w.project(), {"kind": "C05", "full": False, "nofilter": True})
+            mutate_after_warm(w, calls)
         orig2 = PX.projection_with_decor(w)
         out = PX.roundtrip_fresh(w, proto, loader, fc, calls, wd, f"{os.getpid()}-{abs(hash((name, str(path), variant, caching, proto, loader))) % 10**9}")
         out["orig"] = orig2
